@@ -72,23 +72,7 @@ func ReadFromSRT(i io.Reader) (o *Subtitles, err error) {
 			}
 
 			// Remove trailing empty lines
-			if len(s.Lines) > 0 {
-				for i := len(s.Lines) - 1; i >= 0; i-- {
-					if len(s.Lines[i].Items) > 0 {
-						for j := len(s.Lines[i].Items) - 1; j >= 0; j-- {
-							if len(s.Lines[i].Items[j].Text) == 0 {
-								s.Lines[i].Items = s.Lines[i].Items[:j]
-							} else {
-								break
-							}
-						}
-						if len(s.Lines[i].Items) == 0 {
-							s.Lines = s.Lines[:i]
-						}
-
-					}
-				}
-			}
+			srtRemoveTrailingEmptyLines(s)
 
 			// Init subtitle
 			s = &Item{}
@@ -136,7 +120,31 @@ func ReadFromSRT(i io.Reader) (o *Subtitles, err error) {
 		err = fmt.Errorf("astisub: scanning failed: %w", err)
 		return
 	}
+
+	// Remove trailing empty lines of the last subtitle
+	srtRemoveTrailingEmptyLines(s)
 	return
+}
+
+// srtRemoveTrailingEmptyLines removes the empty lines found at the end of a subtitle
+func srtRemoveTrailingEmptyLines(s *Item) {
+	if len(s.Lines) > 0 {
+		for i := len(s.Lines) - 1; i >= 0; i-- {
+			if len(s.Lines[i].Items) > 0 {
+				for j := len(s.Lines[i].Items) - 1; j >= 0; j-- {
+					if len(s.Lines[i].Items[j].Text) == 0 {
+						s.Lines[i].Items = s.Lines[i].Items[:j]
+					} else {
+						break
+					}
+				}
+				if len(s.Lines[i].Items) == 0 {
+					s.Lines = s.Lines[:i]
+				}
+
+			}
+		}
+	}
 }
 
 // parseTextSrt parses the input line to fill the Line
